@@ -159,8 +159,12 @@ func vfC38Flip(r *vfRand, o *Options, f string, env *vfC38Env) {
 		return
 	case "TrigramMax":
 		switch o.TrigramMax {
-		case 50:
-			o.TrigramMax = 20000
+		case 50: // to the default, or to another non-default value (both written into the hash)
+			if r.Bool() {
+				o.TrigramMax = 20000
+			} else {
+				o.TrigramMax = 70
+			}
 		default:
 			o.TrigramMax = 50
 		}
@@ -751,7 +755,7 @@ func TestVerifC38(t *testing.T) {
 	}
 	// a random but valid option set. withCtags: use the fake binaries (slower: spawns processes at build time)
 	genOpts := func(withCtags bool) Options {
-		o := Options{SizeMax: []int{1000, 100000, 2 << 20}[r.Intn(3)], TrigramMax: []int{20000, 50, 0}[r.Intn(3)], Parallelism: 1,
+		o := Options{SizeMax: []int{1000, 100000, 2 << 20}[r.Intn(3)], TrigramMax: []int{20000, 50, 0, 70}[r.Intn(4)], Parallelism: 1,
 			ShardMax: []int{100 << 20, 600}[r.Intn(2)], DisableCTags: !withCtags}
 		if r.Chance(30) {
 			o.LargeFiles = []string{"big.txt"}
